@@ -295,6 +295,20 @@ class Sym:
                 num, den = c.numerator, c.denominator
                 if isqrt(num) ** 2 == num and isqrt(den) ** 2 == den:
                     return Rat.const(Fr(isqrt(num), isqrt(den)))
+        if getattr(self, 'assume_positive', False) and \
+                len(arg.n.d) == 1 and len(arg.d.d) == 1:
+            # sqrt of a perfect-square monomial of positive quantities
+            (kn, cn), = arg.n.d.items()
+            (kd, cd), = arg.d.d.items()
+            from math import isqrt
+            c = cn / cd
+            if c > 0 and all(e % 2 == 0 for _, e in kn + kd) and \
+                    isqrt(c.numerator) ** 2 == c.numerator and \
+                    isqrt(c.denominator) ** 2 == c.denominator:
+                return Rat(Poly({tuple((x, e // 2) for x, e in kn):
+                                 Fr(isqrt(c.numerator))}),
+                           Poly({tuple((x, e // 2) for x, e in kd):
+                                 Fr(isqrt(c.denominator))}))
         a = self.fn_atom('sqrt', arg, label)
         self.rel[a] = arg
         return Rat.atom(a)
@@ -309,7 +323,56 @@ class Sym:
             return -1, -arg
         return 1, arg
 
+    def imag_part(self, a):
+        """x such that a == I*x with x free of I, else None"""
+        if 'I' not in a.atoms():
+            return None
+        x = a / Rat.atom('I')
+        # a = I*x  <=>  every numerator monomial has I^1 and denominator none
+        if 'I' in a.d.atoms():
+            return None
+        n = Poly()
+        for k, v in a.n.d.items():
+            e = dict(k).get('I', 0)
+            if e != 1:
+                return None
+            n = n + Poly({tuple((x_, y) for x_, y in k if x_ != 'I'): v})
+        return Rat(n, a.d)
+
+    def conj(self, a):
+        if 'I' not in a.atoms():
+            return a
+        m = -Poly.atom('I')
+        return Rat(a.n.subst('I', m), a.d.subst('I', m))
+
+    def _special_angle(self, arg):
+        """(sin, cos) for arg in {0, pi/2, pi, -pi/2} else None"""
+        if arg.d.is_const() and set(arg.n.atoms()) <= {'pi'} and \
+                arg.n.degree('pi') <= 1:
+            c = arg.n.d.get((('pi', 1),), Fr(0)) / arg.d.constant()
+            if arg.n.d.get((), 0) != 0:
+                return None
+            q = c % 2
+            table = {Fr(0): (0, 1), Fr(1, 2): (1, 0), Fr(1): (0, -1),
+                     Fr(3, 2): (-1, 0)}
+            if q in table:
+                return table[q]
+        return None
+
+    def _double(self, arg):
+        """a if arg == 2*a with a 'simple' (all numerator coefficients even)"""
+        if arg.d.is_const() and arg.n.d and all(
+                (v / arg.d.constant()) % 2 == 0 for v in arg.n.d.values()):
+            return arg * Rat.const(Fr(1, 2))
+        return None
+
     def sin(self, arg, label=None):
+        sp = self._special_angle(arg)
+        if sp is not None:
+            return Rat.const(sp[0])
+        h = self._double(arg)
+        if h is not None:
+            return Rat.const(2) * self.sin(h) * self.cos(h)
         s, a = self._signed(arg)
         if s == 0:
             return ZERO
@@ -320,6 +383,13 @@ class Sym:
         return -r if s < 0 else r
 
     def cos(self, arg, label=None):
+        sp = self._special_angle(arg)
+        if sp is not None:
+            return Rat.const(sp[1])
+        h = self._double(arg)
+        if h is not None:
+            c_, s_ = self.cos(h), self.sin(h)
+            return c_ * c_ - s_ * s_
         s, a = self._signed(arg)
         if s == 0:
             return ONE
@@ -473,6 +543,10 @@ class Ev:
     # ------------------------------------------------------------- expr
     def ev(self, e):
         if isinstance(e, ast.Constant):
+            if isinstance(e.value, complex):
+                self.sym.rel.setdefault('I', -ONE)
+                return Rat.const(Fr(str(e.value.real))) + \
+                    Rat.const(Fr(str(e.value.imag))) * Rat.atom('I')
             c = const_of(e)
             if c is None:
                 raise Inconclusive(f'constant {e.value!r}')
@@ -685,6 +759,14 @@ class Ev:
                 return ZERO
             if name in ('full_like', 'full') and len(e.args) >= 2:
                 return self.ev(e.args[1])
+            if name == 'exp' and e.args:
+                a = self.ev(e.args[0])
+                x = self.sym.imag_part(a)
+                if x is not None:
+                    return self.sym.cos(x) + Rat.atom('I') * self.sym.sin(x)
+                return self.sym.opaque('exp', (a,))
+            if name in ('conj', 'conjugate') and e.args:
+                return self.sym.conj(self.ev(e.args[0]))
             if name == 'arccos' and e.args:
                 a = self.ev(e.args[0])
                 at = self.sym.fn_atom('acos', a)
